@@ -583,10 +583,17 @@ pub fn check_state(p: &Props, ops: &[Op], info: &PlanInfo, obs: &Obs, last_only:
             out.push(v("C04", "dispatch-panicked", format!("sequential dispatch script panicked: {}", e)));
         } else if let Some(runs) = &obs.runs {
             for n in &info.nodes {
-                let exp = expected_runs(info, n.id, 3, 2);
+                if info.rejected.contains(&n.id) {
+                    // a (rightly) rejected registration never happened
+                    if runs[n.id] != 0 {
+                        out.push(v("C04", "rejected-system-ran", format!("system {} was rejected by the builder but ran {} times", n.id, runs[n.id])));
+                    }
+                    continue;
+                }
+                let exp = expected_runs(info, n.id, 4, 3);
                 if runs[n.id] != exp {
                     let sig = if runs[n.id] < exp { "system-skipped" } else { "system-ran-too-often" };
-                    out.push(v("C04", sig, format!("system {} ran {} times after [dispatch_seq, dispatch_par, dispatch, dispatch_thread_local], expected {}: {}", n.id, runs[n.id], exp, l.short())));
+                    out.push(v("C04", sig, format!("system {} ran {} times after [dispatch_seq, dispatch_par, dispatch, dispatch_thread_local, RunNow::run_now], expected {}: {}", n.id, runs[n.id], exp, l.short())));
                 }
             }
         }
@@ -660,6 +667,16 @@ pub fn check_state(p: &Props, ops: &[Op], info: &PlanInfo, obs: &Obs, last_only:
                 if n.kind != Kind::Batch && di[n.id] != 1 {
                     let sig = if n.parent.is_some() { "dispose-not-forwarded-into-batch" } else { "dispose-count" };
                     out.push(v("C13", sig, format!("system {} (depth {}) was disposed {} times", n.id, n.depth, di[n.id])));
+                }
+            }
+        }
+        if let (Some(su), Some(di)) = (&obs.setups_via_run_now, &obs.disposes_via_run_now) {
+            for n in &info.nodes {
+                if n.kind != Kind::Batch && !n.is_static && su[n.id] != 1 {
+                    out.push(v("C13", "setup-count-via-run-now", format!("system {} (depth {}) was set up {} times when the dispatcher was set up through its RunNow implementation", n.id, n.depth, su[n.id])));
+                }
+                if n.kind != Kind::Batch && di[n.id] != 1 {
+                    out.push(v("C13", "dispose-count-via-run-now", format!("system {} (depth {}) was disposed {} times when the dispatcher was disposed through its RunNow implementation", n.id, n.depth, di[n.id])));
                 }
             }
         }
